@@ -521,7 +521,23 @@ func (se *symExec) execStmt(s ast.Stmt, st *sstate) (fall []*sstate, rets []path
 		return []*sstate{st}, nil
 	case *ast.EmptyStmt:
 		return []*sstate{st}, nil
-	case *ast.DeferStmt, *ast.GoStmt, *ast.LabeledStmt, *ast.SelectStmt, *ast.SendStmt:
+	case *ast.DeferStmt:
+		// a deferred recover barrier does not take part in the straight-line behaviour being interpreted
+		if fl, ok := x.Call.Fun.(*ast.FuncLit); ok {
+			rec := false
+			ast.Inspect(fl.Body, func(n ast.Node) bool {
+				if c, ok := n.(*ast.CallExpr); ok && isBuiltinCall(se.info, c, "recover") {
+					rec = true
+				}
+				return true
+			})
+			if rec {
+				return []*sstate{st}, nil
+			}
+		}
+		st.undecided(s.Pos(), "defer statement not handled by the interpreter")
+		return []*sstate{st}, nil
+	case *ast.GoStmt, *ast.LabeledStmt, *ast.SelectStmt, *ast.SendStmt:
 		st.undecided(s.Pos(), "statement form %T not handled by the handler interpreter", s)
 		return []*sstate{st}, nil
 	}
